@@ -185,6 +185,7 @@ type Ctx struct {
 	scoutDepth int
 	resumeHeader *ssa.BasicBlock
 	pendingOnce *onceCall
+	localRefs []string // refs allocated during the current effects-discovery run
 }
 
 func (c *Ctx) freshConst(hint string, s Sort) Term {
@@ -205,6 +206,31 @@ func (c *Ctx) getHeap(s *State, name string, sort Sort) Term {
 	s.heap[name] = t
 	c.eng.heapSorts[name] = sort
 	return t
+}
+
+// isLocalRef: the object was allocated during the current effects-discovery run, so writes
+// to it are invisible to the caller / to earlier iterations.
+func (c *Ctx) isLocalRef(base Term) bool {
+	if c.written == nil {
+		return false
+	}
+	for _, r := range c.localRefs {
+		if base.S == r || strings.Contains(base.S, " "+r+")") || strings.Contains(base.S, " "+r+" ") {
+			return true
+		}
+	}
+	return false
+}
+
+func (c *Ctx) setHeapAt(s *State, name string, t Term, base Term) {
+	if c.written != nil && c.isLocalRef(base) {
+		saved := c.written
+		c.written = nil
+		c.setHeap(s, name, t)
+		c.written = saved
+		return
+	}
+	c.setHeap(s, name, t)
 }
 
 func (c *Ctx) setHeap(s *State, name string, t Term) {
@@ -321,7 +347,7 @@ func (c *Ctx) storeAt(s *State, ref Term, t types.Type, v Value) {
 		}
 		name := "Elem|" + typeKey(at.Elem())
 		h := c.getHeap(s, name, ArrSort(SInt, ArrSort(SInt, cs[0].Sort)))
-		c.setHeap(s, name, Store(h, ref, av.Elems))
+		c.setHeapAt(s, name, Store(h, ref, av.Elems), ref)
 		return
 	}
 	cs := compsOf(t)
@@ -333,7 +359,7 @@ func (c *Ctx) storeAt(s *State, ref Term, t types.Type, v Value) {
 	for i, cp := range cs {
 		name := "Cell|" + typeKey(t) + cp.Suffix
 		h := c.getHeap(s, name, ArrSort(SInt, cp.Sort))
-		c.setHeap(s, name, Store(h, ref, ts[i]))
+		c.setHeapAt(s, name, Store(h, ref, ts[i]), ref)
 	}
 }
 
@@ -394,7 +420,7 @@ func (c *Ctx) storeField(s *State, base Term, structT types.Type, field int, v V
 	hn := fieldHeapName(structT, field)
 	for i, cp := range cs {
 		h := c.getHeap(s, hn+cp.Suffix, ArrSort(SInt, cp.Sort))
-		c.setHeap(s, hn+cp.Suffix, Store(h, base, ts[i]))
+		c.setHeapAt(s, hn+cp.Suffix, Store(h, base, ts[i]), base)
 	}
 }
 
@@ -432,7 +458,7 @@ func (c *Ctx) storeElem(s *State, arr, idx Term, elemT types.Type, v Value) {
 	for i, cp := range cs {
 		name := "Elem|" + typeKey(elemT) + cp.Suffix
 		h := c.getHeap(s, name, ArrSort(SInt, ArrSort(SInt, cp.Sort)))
-		c.setHeap(s, name, Store(h, arr, Store(Select(h, arr), idx, ts[i])))
+		c.setHeapAt(s, name, Store(h, arr, Store(Select(h, arr), idx, ts[i])), arr)
 	}
 }
 
@@ -495,6 +521,9 @@ func (c *Ctx) newRef(s *State, hint string) Term {
 	r := c.freshConst(hint, SInt)
 	c.d.Fun("birth", []Sort{SInt}, SInt)
 	s.assume(Term{fmt.Sprintf("(and (= (birth %s) %d) (not (= %s 0)))", r.S, s.clock, r.S), SBool})
+	if c.written != nil {
+		c.localRefs = append(c.localRefs, r.S)
+	}
 	return r
 }
 
